@@ -381,7 +381,9 @@ def _r13_5(res, P, cfgname):
         acc = {"Single": Counter(), "Double": Counter()}
         for bb, t, fr in mir.iter_calls(b):
             cp = fr and (fr.get("rp") or fr["p"])
-            if not cp or not t["a"] or not cp.startswith(("dashu_int::div_const::Const", "num_modular::")):
+            # the ring's own accessors only (normalized_divisor / divisor / shift / rem_* ...): trait calls on
+            # the inner num-modular reducer are routinely wrapped in closures / combinators
+            if not cp or not t["a"] or not cp.startswith("dashu_int::div_const::Const"):
                 continue
             S = S or sym.Sym(f)
             a0 = sym.term_str(S.operand(t["a"][0]), 300)
@@ -397,7 +399,7 @@ def _r13_5(res, P, cfgname):
         else:
             res.fail("R13.5", cfgname, key, "%s calls %s on the single-word ring but %s on the double-word ring: the two width classes use different quantities (residues are kept pre-shifted by the normalisation shift)" % (
                 f["p"], dict(acc["Single"]), dict(acc["Double"])), span_loc(f["sp"]))
-    res.floor("R13.5", cfgname, n, 12, "functions handling both ring widths")
+    res.floor("R13.5", cfgname, n, 5, "functions handling both ring widths")
 
 
 LEVEL = LEVEL + ' Also (R13.4) every raw residue literal takes its value from a ring kernel, a reviewed producer, 0, or a value compared with the normalised divisor; (R15.4b, shared) Reduced::clone_from copies residue and ring on every path; (R19.2, shared) no modular step sits inside a debug assertion; compile-fail witness (thorough): a Reduced value cannot outlive its ring.'
